@@ -5,6 +5,8 @@
 //! statements as in the spec: `{"t": "let"}`, `{"t": "call", "c": b}`, `{"t": "check", "c": b,
 //! "e": "panic|recall"}`, `{"t": "recall"}`, `{"t": "dassert", "c": b}`, `{"t": "finish", "ops": [..]}`,
 //! `{"t": "if3", "c": b, "c2": b, "arms": [[..],[..],[..]]}`, `{"t": "stray", "op": {..}, "via": "inline|function"}`,
+//! finish ops: emit/create/delete/update/ff and `{"o": "emitx|createx|ffx", "x": {"k": kind, "c": b}}`
+//! (a field expression of the given ExprKind behind an earlier write; see FinishExprKinds in the spec).
 //! `{"t": "if", "c": b, "a": [..], "b": [..], "els": b}`, `{"t": "match", "n": k, "arms": [[..],[..],[..]]}`.
 //!
 //! Every case becomes one command `P<i>` (policy block + `recall r()` block) plus an action that
@@ -78,6 +80,10 @@ struct Ren {
     lets: usize,
     extra: String, // helper functions of this case (misplaced statements inside a pure function)
     idx: usize,
+    /// control rendering: finish-field expressions are hoisted into a `let` in front of the
+    /// finish block (where every expression kind is legal) and the field uses the variable
+    hoist: bool,
+    pre: Vec<String>,
 }
 
 impl Ren {
@@ -91,7 +97,34 @@ impl Ren {
         self.fields.push((n.clone(), "int".into(), Value::Int(v)));
         format!("this.{n}")
     }
-    fn ops(ops: &[Jv]) -> String {
+    /// Text of a finish-field expression of the given kind (PolicyStmts.tla FinishExprKinds);
+    /// `c` / `one` are the names of a bool holding the condition value and of an int holding 1.
+    fn xexpr(kind: &str, c: &str, one: &str) -> (String, bool) {
+        let (e, is_bool) = match kind {
+            "int" => ("6".to_string(), false),
+            "dot" => (one.to_string(), false),
+            "bool" => ("true".to_string(), true),
+            "call" => (format!("pos({c})"), false),
+            "builtin" => ("saturating_add(5, 1)".to_string(), false),
+            "todo" => ("todo()".to_string(), false),
+            "ifexpr" => (format!("if {c} {{ : 6 }} else {{ : 7 }}"), false),
+            "match" => (format!("match {c} {{ true => 6 false => 7 }}"), false),
+            "coalesce" => ("add(5, 1) or 0".to_string(), false),
+            "count" => ("count_up_to 1 F[k: 1]".to_string(), false),
+            "block" => ("{ let z = 6 : z }".to_string(), false),
+            "and" => (format!("{c} && true"), true),
+            "not" => (format!("!{c}"), true),
+            "eq" => (format!("{one} == 1"), true),
+            "gt" => (format!("{one} > 0"), true),
+            "is" => ("Some(1) is Some".to_string(), true),
+            k => vrt::die(&format!("unknown finish expression kind {k}")),
+        };
+        (e, is_bool)
+    }
+    fn emit_of(e: &str, is_bool: bool) -> String {
+        if is_bool { format!("emit EB {{ b: {e} }} ") } else { format!("emit E {{ n: {e} }} ") }
+    }
+    fn ops(&mut self, ops: &[Jv]) -> String {
         let mut s = String::new();
         for o in ops {
             s += &match o.s("o") {
@@ -100,6 +133,41 @@ impl Ren {
                 "delete" => format!("delete F[k: {}] ", o.i("k")),
                 "update" => format!("update F[k: {}]=>{{v: {}}} to {{v: {}}} ", o.i("k"), o.i("from"), o.i("to")),
                 "ff" => "ff() ".to_string(),
+                "emitx" | "createx" | "ffx" => {
+                    let x = o.g("x");
+                    let c = self.cond(x.b("c"));
+                    let (mut e, is_bool) = Self::xexpr(x.s("k"), &c, "this.one");
+                    if self.hoist {
+                        self.lets += 1;
+                        let v = format!("xv{}", self.lets);
+                        self.pre.push(format!("let {v} = {e}"));
+                        e = v;
+                    }
+                    if o.s("o") == "ffx" {
+                        // a finish function of this case: an earlier write, then the expression
+                        self.lets += 1;
+                        let f = format!("fx{}_{}", self.idx, self.lets);
+                        if self.hoist {
+                            self.extra += &format!(
+                                "finish function {f}(v {}) {{\n    create F[k: 3]=>{{v: 3}}\n    {}\n}}\n",
+                                if is_bool { "bool" } else { "int" },
+                                Self::emit_of("v", is_bool)
+                            );
+                            format!("{f}({e}) ")
+                        } else {
+                            let (fe, _) = Self::xexpr(x.s("k"), "b", "one");
+                            self.extra += &format!(
+                                "finish function {f}(b bool, one int) {{\n    create F[k: 3]=>{{v: 3}}\n    {}\n}}\n",
+                                Self::emit_of(&fe, is_bool)
+                            );
+                            format!("{f}({c}, this.one) ")
+                        }
+                    } else if o.s("o") == "emitx" {
+                        Self::emit_of(&e, is_bool)
+                    } else {
+                        format!("create F[k: 4]=>{{v: {e}}} ")
+                    }
+                }
                 x => vrt::die(&format!("unknown op {x}")),
             };
         }
@@ -127,7 +195,7 @@ impl Ren {
                 "recall" => s += &format!("{pad}recall r(7, this.tag)\n"),
                 "stray" => {
                     // a finish-only statement outside a finish block (expected: rejected)
-                    let op = Self::ops(std::slice::from_ref(st.g("op")));
+                    let op = self.ops(std::slice::from_ref(st.g("op")));
                     if st.s("via") == "inline" {
                         s += &format!("{pad}{op}\n");
                     } else {
@@ -137,7 +205,13 @@ impl Ren {
                         s += &format!("{pad}let x{} = {f}()\n", self.lets);
                     }
                 }
-                "finish" => s += &format!("{pad}finish {{ {}}}\n", Self::ops(st.a("ops"))),
+                "finish" => {
+                    let o = self.ops(st.a("ops"));
+                    for l in self.pre.drain(..) {
+                        s += &format!("{pad}{l}\n");
+                    }
+                    s += &format!("{pad}finish {{ {o}}}\n");
+                }
                 "if" => {
                     let c = self.cond(st.b("c"));
                     s += &format!("{pad}if {c} {{\n{}{pad}}}", self.block(st.a("a"), ind + 4));
@@ -185,6 +259,14 @@ use envelope
 
 fact F[k int]=>{v int}
 effect E { n int }
+effect EB { b bool }
+
+// 6 for true; for false no return statement is reached: the VM panics
+function pos(b bool) int {
+    if b {
+        return 6
+    }
+}
 
 function chk(b bool) bool {
     check b else test_fail("chk")
@@ -223,12 +305,17 @@ struct Rendered {
 }
 
 fn render_case(idx: usize, case: &Jv) -> Rendered {
-    let mut r = Ren { fields: Vec::new(), lets: 0, extra: String::new(), idx };
+    render_case_with(idx, case, false)
+}
+
+fn render_case_with(idx: usize, case: &Jv, hoist: bool) -> Rendered {
+    let mut r = Ren { fields: Vec::new(), lets: 0, extra: String::new(), idx, hoist, pre: Vec::new() };
     let pol = r.block(case.a("policy"), 8);
     let rec = r.block(case.a("recall"), 8);
     // `tag` travels policy -> recall argument; the recall block checks both arguments, so a
     // recall that passes the wrong values (or enters the decoy block `z`) is noticed
     r.fields.push(("tag".into(), "int".into(), Value::Int(40 + (idx % 7) as i64)));
+    r.fields.push(("one".into(), "int".into(), Value::Int(1)));
     let tagv = 40 + (idx % 7) as i64;
     let fdef: Vec<String> = r.fields.iter().map(|(n, t, _)| format!("{n} {t}")).collect();
     let fpass: Vec<String> = r.fields.iter().map(|(n, _, _)| format!("{n}: {n}")).collect();
@@ -511,7 +598,14 @@ fn decide(
     let got_eff: Vec<(i64, bool)> = sink
         .effects
         .iter()
-        .map(|e| (match rt::field(e, "n") { Some(Value::Int(n)) => *n, _ => i64::MIN }, e.recalled))
+        .map(|e| {
+            let n = match (rt::field(e, "n"), rt::field(e, "b")) {
+                (Some(Value::Int(n)), _) => *n,
+                (_, Some(Value::Bool(b))) => 100 + i64::from(*b), // effect EB {b}: 100 + b, as in the spec
+                _ => i64::MIN,
+            };
+            (n, e.recalled)
+        })
         .collect();
     let obs = json!({
         "exit_real": exit_real, "exit_spec": exit_spec, "outcome": outcome.name(),
@@ -601,6 +695,61 @@ pub fn run(args: &Args) {
         }
     }
     eprintln!("stmts: {} programs with a misplaced finish-only statement, {} rejected by the compiler", stray.len(), stray_rejected);
+    // Controls for the finish-field expression programs: the same program with the expression
+    // hoisted into a `let` in front of the finish block is legal, so it must compile (else the
+    // rendering of that kind is wrong and its rejection above means nothing) and run to the
+    // spec's outcome — with no side effects when the expression panics.
+    let mut ctl_cases: Vec<Jv> = Vec::new();
+    let mut ctl_of: Vec<usize> = Vec::new();
+    for &i in &stray {
+        let txt = cases[i].to_string();
+        if !(txt.contains("\"emitx\"") || txt.contains("\"createx\"") || txt.contains("\"ffx\"")) || txt.contains("\"todo\"") {
+            continue;
+        }
+        let mut c = cases[i].clone();
+        c["stray"] = json!(false);
+        if c.s("exit") == "Panic" {
+            c["io"] = json!([]);
+            c["facts"] = json!([[1, 1]]);
+        }
+        ctl_cases.push(c);
+        ctl_of.push(i);
+    }
+    if !ctl_cases.is_empty() {
+        let ctl_rendered: Vec<Rendered> = ctl_cases.iter().enumerate().map(|(j, c)| render_case_with(j, c, true)).collect();
+        let mut ctl_results: Vec<(usize, Jv)> = Vec::new();
+        let mut ctl_rejects = Vec::new();
+        let saved = (stats.rejected, stats.ran);
+        let idx: Vec<usize> = (0..ctl_cases.len()).collect();
+        for chunk in idx.chunks(batch) {
+            run_batch(force_vm, &ctl_cases, &ctl_rendered, chunk, &mut ctl_results, &mut stats, &mut ctl_rejects);
+        }
+        stats.rejected = saved.0;
+        stats.ran = saved.1;
+        let (mut c_ok, mut c_rej, mut c_bad) = (0, 0, 0);
+        for (j, r) in ctl_results {
+            let i = ctl_of[j];
+            let slot = results.iter_mut().find(|(k, _)| *k == i).map(|(_, v)| v).unwrap_or_else(|| vrt::die("control without case"));
+            if r.get("rejected").is_some() {
+                c_rej += 1;
+                slot["control"] = json!("rejected");
+            } else if r.get("ok").and_then(|x| x.as_bool()) == Some(true) {
+                c_ok += 1;
+                slot["control"] = json!("ok");
+            } else {
+                c_bad += 1;
+                let mut r = r;
+                r["i"] = json!(i);
+                r["control"] = json!("failed");
+                r["msg"] = json!(format!("(control program: expression hoisted into a let) {}", r.s("msg")));
+                *slot = r;
+            }
+        }
+        eprintln!("stmts: {} control programs (expression hoisted in front of finish): {c_ok} ok, {c_rej} rejected, {c_bad} failing", ctl_cases.len());
+        for (j, e) in ctl_rejects.iter().take(3) {
+            eprintln!("  control {j} rejected: {e}");
+        }
+    }
     results.sort_by_key(|(i, _)| *i);
     let mut out = args.out();
     for (_, r) in results {
